@@ -111,8 +111,8 @@ REG["C08"] = dict(
 )
 
 REG["C17"] = dict(
-    harnesses=[H(P, "VerifH_C17_resetRestoresWriter"), H(P, "VerifH_C17_bloomResizeZeroes")],
-    explanation="(K2) concrete-prefix harness on the real writer: newWriter wires the column writers of a two-column nested schema, the real writeRowGroup records one or two row groups (page flushing and the file header are stubbed: no page is buffered), the real writer.reset runs, and every piece of state that feeds the next file's footer (column paths, encodings, types, column-chunk metadata, schema elements) equals a freshly constructed writer's; a row group recorded after Reset names its columns. Counterexamples are re-enacted natively: the same rows through a fresh writer and through Reset must give identical bytes. (K1, part) a bloom-filter buffer retained across row groups is zeroed and correctly sized by resizeBloomFilter whatever it held.",
+    harnesses=[H(P, "VerifH_C17_resetRestoresWriter"), H(P, "VerifH_C17_bloomResizeZeroes"), H(P, "VerifH_C17_columnWriterReset")],
+    explanation="(K2) concrete-prefix harness on the real writer: newWriter wires the column writers of a two-column nested schema, the real writeRowGroup records one or two row groups (page flushing and the file header are stubbed: no page is buffered), the real writer.reset runs, and every piece of state that feeds the next file's footer (column paths, encodings, types, column-chunk metadata, schema elements) equals a freshly constructed writer's; a row group recorded after Reset names its columns. Counterexamples are re-enacted natively: the same rows through a fresh writer and through Reset must give identical bytes. (K1, part) a bloom-filter buffer retained across row groups is zeroed and correctly sized by resizeBloomFilter whatever it held; ColumnWriter.reset returns every per-row-group field (level histograms for every level shape, counters, chunk sizes/offsets/statistics, encoding stats, page locations, column indexer, filter) to its initial value from arbitrary symbolic contents.",
     bounds={"quick": "schema {a int64, b{c optional int32}}, 1..2 row groups before Reset; bloom: retained capacity 0..2 blocks of symbolic bytes, 1..60 values", "thorough": "same"},
     outside=["purego vs assembly builds (assembly has no SSA)", "goroutine identity, encryption nonces", "dictionary reset (K3), key-value metadata order (K5), generic field-by-field reset frame (K1) not built yet", "dirty reusable encode buffers are covered by the garbage-dst clause of the C04 harnesses"],
     assumptions=["K2: stubs for ColumnWriter.Flush, flushFilterPages, totalRowCount and writer.writeFileHeader (no page data is written)"],
@@ -142,8 +142,8 @@ REG["C16"] = dict(
 )
 
 REG["C02"] = dict(
-    harnesses=[H(P, "VerifH_C02_pageAccounting", max_seconds=600), H(E + "thrift", "VerifH_C02_compactIntegers"), H(E + "thrift", "VerifH_C02_compactHeaders"), H(P, "VerifH_C02_reencodeRowBoundaries")],
-    explanation="Kernel-wise; the independent decoder is realised as reference functions written in the harness from the format specifications. (K1) ColumnWriter.recordPageStats on a dictionary page and up to three data pages with symbolic header sizes, body sizes and row/value/null counts: every page location's offset is the sum of the sizes of everything stored before it in the chunk, first_row_index is the sum of earlier rows, compressed_page_size is header+body, and the chunk totals and encoding statistics are the sums. (K4) Thrift compact protocol primitives, through which every header and the footer pass: zig-zag varints for i16/i32/i64, field headers (delta short form and long form), list headers (short and long form), binary values and the stop field are decoded from the written bytes by a decoder written from the thrift-compact spec and by the library's reader, for all values. (K5) encodings against spec decoders: see C04. (K6) the re-encode path hands only whole rows to the column writer, so pages begin on row boundaries (rows around the 1024-value batch of copyColumnValues).",
+    harnesses=[H(P, "VerifH_C17_columnWriterReset"), H(P, "VerifH_C02_pageAccounting", max_seconds=600), H(E + "thrift", "VerifH_C02_compactIntegers"), H(E + "thrift", "VerifH_C02_compactHeaders"), H(P, "VerifH_C02_reencodeRowBoundaries")],
+    explanation="Kernel-wise; the independent decoder is realised as reference functions written in the harness from the format specifications. (K1) ColumnWriter.recordPageStats on a dictionary page and up to three data pages with symbolic header sizes, body sizes and row/value/null counts: every page location's offset is the sum of the sizes of everything stored before it in the chunk, first_row_index is the sum of earlier rows, compressed_page_size is header+body, and the chunk totals and encoding statistics are the sums. (K1') the per-row-group state of a column writer (level histograms, counters, sizes, statistics) is returned to its initial value between row groups, so the metadata of a row group only describes that row group. (K4) Thrift compact protocol primitives, through which every header and the footer pass: zig-zag varints for i16/i32/i64, field headers (delta short form and long form), list headers (short and long form), binary values and the stop field are decoded from the written bytes by a decoder written from the thrift-compact spec and by the library's reader, for all values. (K5) encodings against spec decoders: see C04. (K6) the re-encode path hands only whole rows to the column writer, so pages begin on row boundaries (rows around the 1024-value batch of copyColumnValues).",
     bounds={"quick": "K1: optional dictionary page + 1..3 data pages, header sizes <256, body sizes <65536, rows/nulls <256; K4: all int16/int32/int64 values, field ids >=1, list sizes >=0, binary 0..3 bytes; K6: first row of 1016..1026 values, second 1..4, third 0..2", "thorough": "same"},
     outside=["footer and page-header struct serialisation (reflection-driven Thrift encoder)", "absolute file offsets in writeRowGroup and the verbatim-copy splice (K2), checksum ordering in writeDataPage (K3)", "whole-file parse by an independent reader", "bloom filter header, sorting metadata, key-value metadata"],
 )
@@ -155,8 +155,8 @@ REG["C11"] = dict(
 )
 
 REG["C12"] = dict(
-    harnesses=[H(P, "VerifH_C12_flatSubsetAndAdd"), H(P, "VerifH_C12_addInsideRepeatedGroup"), H(P, "VerifH_C12_addBesideNestedGroup")],
-    explanation="Concrete-prefix harnesses: the real NewSchema/Convert build the conversion (column mapping, closest-sibling lookup, level tables) for source and target schemas chosen by case split, and the real conversion.Convert rewrites rows with symbolic payloads; the result is compared with a reference shredding written in the harness. (K1) flat source {a,b,c}: every non-empty subset, with or without an added optional or required leaf sorted between existing columns: common columns keep value and levels with the target's column index, the added column is null resp. zero. (K2) a leaf added inside a repeated group beside a leaf sibling mirrors the sibling's list structure for every list length 0..2 (null resp. zero per element, absent for an empty list). (K2') a leaf added inside a repeated group whose only other child is a group: open known finding (the added column gets one entry per row instead of one per element).",
+    harnesses=[H(P, "VerifH_C12_flatSubsetAndAdd"), H(P, "VerifH_C12_addInsideRepeatedGroup"), H(P, "VerifH_C12_dropKeepsNestedLevels"), H(P, "VerifH_C12_addBesideNestedGroup")],
+    explanation="Concrete-prefix harnesses: the real NewSchema/Convert build the conversion (column mapping, closest-sibling lookup, level tables) for source and target schemas chosen by case split, and the real conversion.Convert rewrites rows with symbolic payloads; the result is compared with a reference shredding written in the harness. (K1) flat source {a,b,c}: every non-empty subset, with or without an added optional or required leaf sorted between existing columns: common columns keep value and levels with the target's column index, the added column is null resp. zero. (K2) a leaf added inside a repeated group beside a leaf sibling mirrors the sibling's list structure for every list length 0..2 (null resp. zero per element, absent for an empty list). (K1') dropping a sibling column preserves the definition levels of a required leaf nested in two optional groups (its nulls come from the null enclosing groups). (K2') a leaf added inside a repeated group whose only other child is a group: open known finding (the added column gets one entry per row instead of one per element).",
     bounds={"quick": "flat: 7 subsets x 3 additions, 1..2 rows; repeated group: lists of 0..2 elements, 1..2 rows; nested sibling: lists of 0..3 elements", "thorough": "same"},
     outside=["value type conversions (convertToType)", "variant reconstruction", "Read[T] (reflection)", "MergeRowGroups with a schema, CopyRows decision", "deeper nesting, maps and LIST/MAP annotated groups"],
 )
